@@ -29,6 +29,7 @@ def ctfe_rule(ctx, rid, prefix):
 def run(ctx):
     facts = ctx.facts("dev")
     ctx.decided += [
+        'E4 Coord::from_index(64) and Cell::from_index(13) in a const context are compile errors (E0080), the in-range twins compile',
         "E3 (exhaustive, by rustc's constant evaluator): index round trips of File/Rank/Coord/Piece/Cell/CastlingRights; Coord::{from_parts,"
         "file,rank,flipped_*,diag,antidiag,add}; DIAG/ANTIDIAG/rank()/file()/LIGHT/DARK membership for all 64 squares; Cell::{from_parts,"
         "color,piece}; Color::inv; CastlingRights::{has,has_color,with,without} on 16x2x2; Bitboard::{from_coord,with,without,has,len,"
@@ -48,3 +49,5 @@ def run(ctx):
         ("bb_iter", "Bitboard iteration"), ("bb_raw", "Bitboard raw conversions"), ("bbc_rank", "bitboard_consts::rank"),
         ("bbc_file", "bitboard_consts::file"),
     ], "bitboard operations are total: no overflow, shift or bounds assertion is reachable for any operand")
+    witness.cf_rule(ctx, 'E4', ('cf/C20/',),
+                    'checked constructors reject out-of-range indices already in const evaluation (compile-fail witnesses E0080)')
